@@ -15,7 +15,7 @@ import (
 
 func configs(sizes []int) []wops.Cfg {
 	var out []wops.Cfg
-	for _, ctor := range []string{"NewWriterSize", "NewWriterBufferSize", "NewWriterBuffer", "NewWriterBuffer/spare-cap", "GetWriter"} {
+	for _, ctor := range []string{"NewWriterSize", "NewWriterBufferSize", "NewWriterBuffer", "NewWriterBuffer/spare-cap", "NewWriterBuffer/odd-address", "GetWriter"} {
 		for _, n := range sizes {
 			for _, client := range []bool{false, true} {
 				for _, nf := range []bool{false, true} {
@@ -103,7 +103,7 @@ func main() {
 				enumerate(t, configs([]int{3, 9, 127, 128, 131, 132}), 4)
 			}
 			t.Outcome("well-formed")
-			t.Note(fmt.Sprintf("5 constructors x sizes {3,4,9,16,123..133} x side x DisableFlush x extension (state carrying the extended/fragmented bits); every history of <=3 ops (<=%d on sizes 3,9,127,128,131,132) over the %d-op alphabet {Write 0/1/S-1/S/S+1/2S+1, ReadFrom 0/S/2S+1 from sources delivering all at once / byte-wise / data together with EOF, ReadFrom S+1 from a *bytes.Reader, ReadFrom from sources that fail after or together with 3 (S+2) bytes, WriteThrough 0/1/S+1, FlushFragment, Flush, Grow 1/S/4S, Reset to a new destination of the other side} + closing Flush; all clauses checked after every call", D, len(wops.Alphabet(16))+1))
+			t.Note(fmt.Sprintf("6 constructors x sizes {3,4,9,16,123..133} x side x DisableFlush x extension (state carrying the extended/fragmented bits); every history of <=3 ops (<=%d on sizes 3,9,127,128,131,132) over the %d-op alphabet {Write 0/1/S-1/S/S+1/2S+1, ReadFrom 0/S/2S+1 from sources delivering all at once / byte-wise / data together with EOF, ReadFrom S+1 from a *bytes.Reader, ReadFrom from sources that fail after or together with 3 (S+2) bytes, WriteThrough 0/1/S+1, FlushFragment, Flush, Grow 1/S/4S, Reset to a new destination of the other side} + closing Flush; all clauses checked after every call", D, len(wops.Alphabet(16))+1))
 		})
 		r.Part("E2-large-buffers", func(t *explore.T) {
 			D := t.Pick(2, 3)
